@@ -270,7 +270,8 @@ def _c09(ctx):
 
     def keep(m):
         return m[0] in ('rm', 'c2') or (m[0] == 'aux' and m[1] in used and m[2] in used)
-    return [_t1(ctx, 'rhumb', None, 18), _t1(ctx, 'aux', None, 150, keep=keep)]
+    from .rules import tab
+    return [_t1(ctx, 'rhumb', None, 18), _t1(ctx, 'aux', None, 150, keep=keep), tab.rule_F1(ctx)]
 
 
 def _c15(ctx):
